@@ -22,13 +22,15 @@
                     result code 9 = NegotiationError::Timeout
    case (mode 7, the Negotiated stream as an I/O object): 7 lazy pool names rscript wscript input ops
                     (op = 0 k read | 1 bytes write | 2 flush | 3 close); trace: see NegOps.v
+   case (mode 8, a request between two real nodes whose request-response protocols have fallback
+                    names): 8 transport pool cfgA cfgB k   (see Sub.v)
    case (mode 2, message-based dialer):    2 pool proto fallbacks ops   (op = 0 payload | 1)
    trace (mode 2):  1 (0 msg | 1) then per op: (0 code) for register_response, (1 0|1 msg|2) for
                     propose_next_fallback *)
 From Coq Require Import List NArith Bool.
 From V.common Require Import Wire.
 From V.C03 Require Import Model Timed NegOps.
-From V.C03 Require Fallback.
+From V.C03 Require Fallback Sub.
 Import ListNotations.
 Open Scope N_scope.
 
@@ -230,6 +232,7 @@ Definition run_case (l : list N) : list N :=
   | 5 :: t => Fallback.run_fallback t
   | 6 :: t => run6 l t
   | 7 :: t => run7 t
+  | 8 :: t => Sub.run_sub t
   | _ =>
   match decode_case l with
   | Some (Case0 c) =>
@@ -594,6 +597,7 @@ Definition prop_ok (case trace : list N) : bool :=
       | _, _ => false
       end
   | 6 :: _ => match trace with [0] => true | _ => false end
+  | 8 :: t => Sub.ok_sub t trace
   | 7 :: t =>
       match decode7 t, trace with
       | Some c, 1 :: tb => ok7 c tb
